@@ -105,6 +105,25 @@ def expected(case):
     """-> ('err', why, dim) | ('ok', rows) with rows = list of [r, c, rhs]; ordered for 1-D, sorted for 2-D."""
     if case.get("scalar"):
         return ("err", "subscript on a scalar", 0)
+    if case.get("func"):
+        sp = spec(case["n"], case["u"])
+        if sp[0] == "err":
+            return ("err", sp[1], 0)
+        return ("ok", sorted([e, 1, 0] for e, _ in sp[1]))
+    if case.get("nest"):
+        # nested for-equations; the outer loop is non-empty; rows compared as a multiset
+        no = len(mrange(case["outer"][0], 1, case["outer"][1]))
+        if case["nest"] == "1d":
+            sp = spec(case["n"], case["u"])
+            if sp[0] == "err":
+                return ("err", "inner loop: " + sp[1], 0)
+            return ("ok", sorted([e, 1, i] for e, i in sp[1]) * 1 if no == 0 else sorted([[e, 1, i] for e, i in sp[1]] * no))
+        s1, s2 = spec(case["n"], ["loop", case["outer"][0], case["outer"][1], 0]), spec(case["m"], case["u"])
+        if s1[0] == "err":
+            return ("err", "outer loop: " + s1[1], 0)
+        if s2[0] == "err":
+            return ("err", "inner loop: " + s2[1], 1)
+        return ("ok", sorted([e1, e2, i] for e1, _ in s1[1] for e2, i in s2[1]))
     if case.get("multi"):
         # consecutive for-equations: each loop judged on its own; rows in loop order, rhs = i + 30*j
         pos, other = case.get("pos"), case.get("other")
@@ -150,6 +169,10 @@ def outside(n, u):
 
 
 def tag_of(case, dim=None):
+    if case.get("func"):
+        return "for-statement-in-function"
+    if case.get("nest"):
+        return "nested-loops"
     if case.get("multi"):
         return "consecutive-loops"
     if case.get("scalar"):
@@ -184,7 +207,7 @@ def judge(case, res):
                 "legal subscript %s rejected with %s: %s"
                 % (show(case), res["exc"], res.get("msg", "")[:120]))
     rows = res["sel"]
-    got = rows if (case.get("v") is None or case.get("multi")) else sorted(rows)
+    got = sorted(rows) if (case.get("func") or case.get("nest")) else (rows if (case.get("v") is None or case.get("multi")) else sorted(rows))
     if exp[0] == "err":
         return (tag_of(case, exp[2]), "%s is out of range (%s) but generation succeeded and selected %s"
                 % (show(case), exp[1], [r[:2] for r in rows] or "nothing (the equation disappears)"))
@@ -254,9 +277,31 @@ def render_multi(case):
     return "model M\n  Real x[%s];\nequation\n%s\nend M;\n" % (", ".join(map(str, dims)), "\n".join(eqs)), dims
 
 
+def render_func(case):
+    n, u = case["n"], case["u"]
+    txt = ("function f\n  input Real x[%d];\n  output Real s;\nalgorithm\n  s := 0;\n  for i in %s loop\n    s := s + x[%s];\n  end for;\nend f;\n"
+           "model M\n  Real x[%d];\n  Real b;\nequation\n  b = f(x);\nend M;\n" % (n, loop_text(u), sub_text(u), n))
+    return txt, [n]
+
+
+def render_nest(case):
+    a, b = case["outer"]
+    on = case.get("outer_name", "j")
+    if case["nest"] == "1d":
+        dims, ref = [case["n"]], "x[%s]" % sub_text(case["u"])
+    else:
+        dims, ref = [case["n"], case["m"]], "x[%s, %s]" % (on, sub_text(case["u"]))
+    eq = "  for %s in %d:%s loop\n    for i in %s loop\n      %s = i;\n    end for;\n  end for;" % (on, a, lit(b, None), loop_text(case["u"]), ref)
+    return "model M\n  Real x[%s];\nequation\n%s\nend M;\n" % (", ".join(map(str, dims)), eq), dims
+
+
 def render(case):
     if case.get("scalar"):
         return render_scalar(case)[:2]
+    if case.get("func"):
+        return render_func(case)
+    if case.get("nest"):
+        return render_nest(case)
     if case.get("multi"):
         return render_multi(case)
     n, m, u, v = case["n"], case.get("m"), case["u"], case.get("v")
@@ -277,6 +322,8 @@ def render(case):
 def show(case):
     txt, _ = render(case)
     body = txt.split("equation\n")[1].rsplit("\nend M", 1)[0]
+    if case.get("func"):
+        return "`function f(Real x[%d]) algorithm %s`" % (case["n"], " ".join(txt.split("s := 0;")[1].split("end f;")[0].split()))
     if case.get("scalar"):
         return "`%s; %s`" % (SCALAR_FORMS[case["scalar"]][4], " ".join(body.split()))
     return "`Real x[%s]; %s`" % (", ".join(str(d) for d in render(case)[1]), " ".join(body.split()))
@@ -287,6 +334,8 @@ def child_case(case):
         txt, dims, target = render_scalar(case)
         return {"text": txt, "dims": dims, "params": {}, "target": target}
     txt, dims = render(case)
+    if case.get("func"):
+        return {"text": txt, "dims": dims, "params": {}, "decode": "powers"}
     return {"text": txt, "dims": dims, "params": {}}
 
 
@@ -399,6 +448,34 @@ def multi_cases(rng, sizes, count, count2d):
     return out
 
 
+def func_and_nest_cases(rng, sizes, nf, nn, mod3):
+    out = []
+    for _ in range(nf):
+        n = rng.choice(sizes)
+        r = rng.random()
+        if r < 0.35:
+            u = rng.choice(loops_1d(n))
+        elif r < 0.8 or not mod3:
+            u = rng.choice(loopx_1d(n))
+        else:
+            a = rng.randint(1, n + 1)
+            u = ["loopx3", a, -rng.choice([1, 2]), rng.randint(0, a), rng.choice(exprs(n))]
+        if len(mrange(u[1], u[2] if u[0] == "loopx3" else 1, u[3] if u[0] == "loopx3" else u[2])) > 6:
+            continue
+        out.append({"func": True, "n": n, "u": u})
+    for _ in range(nn):
+        n, m = rng.choice(sizes), rng.choice(sizes)
+        u = rng.choice(loops_1d(m)) if rng.random() < 0.7 else rng.choice(loopx_1d(m))
+        if True:   # the 2-D form x[j, i] is outside the backend's subset (index_expr with a free outer variable)
+            a = rng.randint(0, 2)
+            c = {"nest": "1d", "n": m, "u": u, "outer": [a, a + rng.randint(0, 2)], "outer_name": rng.choice(["i", "i", "j"])}
+        else:
+            a = rng.randint(0, 1)
+            c = {"nest": "2d", "n": n, "m": m, "u": u, "outer": [a, a + rng.randint(0, n)], "outer_name": "j"}
+        out.append(c)
+    return out
+
+
 def neg_step_slices(n):
     return [["sl3", a, st, b] for a in range(-1, n + 3) for st in (-1, -2) for b in range(-2, n + 2)]
 
@@ -431,6 +508,8 @@ def gen_cases(ctx, cfg=None):
         for n in ctx.scaled([2, 3], [1, 2, 3, 4]):
             cases += [{"n": n, "u": u} for u in neg_step_slices(n)]
         cases += multi_cases(rng, sizes, ctx.scaled(50, 700), ctx.scaled(16, 200))
+    # for-STATEMENTS in a function body called from the model, and NESTED for-equations (inner index may hide the outer one)
+    cases += func_and_nest_cases(rng, sizes, ctx.scaled(70, 600), ctx.scaled(70, 600), bool(cfg and cfg.get("mod3")))
     # 2-D without a loop: scalar / colon / slice in both positions
     two = []
     for n, m in itertools.product(ctx.scaled([1, 2, 3], [1, 2, 3, 4]), repeat=2):
@@ -533,10 +612,14 @@ def encode(case, res):
         kind, sel = (1 if res["exc"] == "ValueError" else 2), []
     else:
         kind = 0
-        if case.get("scalar") or case.get("multi") or case.get("v") is None:
+        if case.get("func"):
+            sel = sorted(r[0] for r in res["sel"])
+        elif case.get("scalar") or case.get("multi") or case.get("v") is None:
             sel = [r[0] for r in res["sel"]]
         else:
             sel = sorted(r[0] * 100 + r[1] for r in res["sel"])
+    if case.get("func"):
+        return "(%s, %s, %s, %s)" % (cq_Z(case["n"]), enc_sub(case["u"]), cq_Z(kind), cq_list([cq_Z(x) for x in sel]))
     if case.get("multi"):
         return "(%s, %s, %s, %s)" % (cq_Z(case["n"]), cq_list([enc_sub(u) for u in case["multi"]]), cq_Z(kind),
                                      cq_list([cq_Z(x) for x in sel]))
@@ -592,6 +675,9 @@ def run(ctx):
     nontrivial = set()
     harness_bad = []
     for c, r in zip(cases, results):
+        for kk in ("func", "nest"):
+            if c.get(kk):
+                dist[kk] = dist.get(kk, 0) + 1
         if c.get("multi"):
             dist["consecutive_loops"] = dist.get("consecutive_loops", 0) + 1
             c = dict(c, u=c["multi"][0])
@@ -612,7 +698,10 @@ def run(ctx):
         if e[0] == "err" or len(e[1]) >= 1:
             nontrivial.add(json.dumps([c.get("scalar"), c.get("n"), c.get("m"), c["u"], c.get("v"), c.get("multi"), c.get("pos"), c.get("other")]))
     # (b) correspondence, inside Coq
-    idx = [i for i, r in enumerate(results) if ("sel" in r or "exc" in r) and not cases[i].get("scalar") and not cases[i].get("multi")]
+    idx = [i for i, r in enumerate(results) if ("sel" in r or "exc" in r) and not cases[i].get("scalar") and not cases[i].get("multi")
+           and not cases[i].get("func") and not cases[i].get("nest")]
+    # function for-statements go through the model (multiset); nested for-equations are judged by the oracle only
+    fidx = [i for i, r in enumerate(results) if ("sel" in r or "exc" in r) and cases[i].get("func")]
     # consecutive for-equations: 1-D ones go through the model, the 2-D variants are judged by the oracle only
     midx = [i for i, r in enumerate(results) if ("sel" in r or "exc" in r) and cases[i].get("multi") and cases[i].get("pos") is None]
     sidx = [i for i, r in enumerate(results) if ("sel" in r or "exc" in r) and cases[i].get("scalar")]
@@ -622,8 +711,10 @@ def run(ctx):
                                [encode(cases[i], results[i]) for i in sidx], "check_scalar %s" % cfg_term(cfg), shard=400)
     mbad = core.coq_eval_cases(ctx, "multi", PREAMBLE, "Z * list sub * Z * list Z",
                                [encode(cases[i], results[i]) for i in midx], "check_multi %s" % cfg_term(cfg), shard=400)
-    mism = None if (bad is None or sbad is None or mbad is None) else ([idx[j] for j in bad] + [sidx[j] for j in sbad]
-                                                                       + [midx[j] for j in mbad])
+    fbad = core.coq_eval_cases(ctx, "func", PREAMBLE, "Z * sub * Z * list Z",
+                               [encode(cases[i], results[i]) for i in fidx], "check_func %s" % cfg_term(cfg), shard=400)
+    mism = None if None in (bad, sbad, mbad, fbad) else ([idx[j] for j in bad] + [sidx[j] for j in sbad]
+                                                         + [midx[j] for j in mbad] + [fidx[j] for j in fbad])
     ctx.oblige("correspondence:model-vs-get_indexed_symbol+ForLoop", mism == [] and not harness_bad,
                "cfg=%s; mismatching: %s" % (cfg, [(show(cases[i]), results[i]) for i in (mism or [])[:6]]))
     if mism and not [v for v in ctx.violations if not v["no_input"]]:
